@@ -135,5 +135,6 @@ CLAIMS['C19'] = dict(technique=GOCV,
   text="Narrow, per the design: contracts on internal/rewrite with go/token facts trusted. getSource(a,b) is exactly file[off(a):off(b)]; GetMethodBody passes the range strictly between the braces of the previous declaration; "
        "GetPrevDecl only returns (and marks as carried over) a method with the requested name on the requested receiver type; RemainingSource writes every declaration that is neither carried over nor an import exactly once "
        "(loop step clause: the written count grows by one exactly for those declarations); ExistingImports yields one entry per import spec in order with its own alias and path; "
-       "resolvergen looks previous implementations up under exactly lcFirst(Object)+ucFirst(ResolverType), the name resolver.gotpl emits.",
+       "resolvergen looks previous implementations up under exactly lcFirst(Object)+ucFirst(ResolverType), the name resolver.gotpl emits; "
+       "prefixLines (used to re-emit doc comments) prefixes every line including empty ones; import pruning parses with object resolution on, which its shadowing test relies on.",
   note=COMMON_NOTE + "The template text itself (that body/comment are placed unchanged, that the result is valid Go, e.g. a trailing line comment swallowing the closing brace), import pruning and repeated regeneration are NOT decided: seeded change C19b (a whitespace edit in resolver.gotpl) is a documented miss.")
